@@ -263,6 +263,8 @@ class Evaluator:
         self.state: Dict[str, Any] = {}       # scratch space of the summaries (reset by the driver)
         self.eq_depth = 0
         self._is_gen: Dict[str, bool] = {}
+        self._getter: Dict[Tuple[str, str], Any] = {}
+        self._mcache: Dict[Tuple[str, str], Any] = {}
         self._globals: Dict[Tuple[str, str], Any] = {}
         self.functions_evaluated: Dict[str, int] = {}
         self.summaries_used: Dict[str, int] = {}
@@ -397,7 +399,7 @@ class Evaluator:
     def truth(self, v, where: str) -> bool:
         if isinstance(v, Node):
             for nm in ("__bool__", "__len__"):
-                m = self.prog.lookup_method(v.info, nm)
+                m = self._methods(v.info, nm)
                 if m:
                     r = self.call_func(FuncVal(m[0], v), [], {}, where)
                     return bool(r)
@@ -440,7 +442,7 @@ class Evaluator:
             return True
         for x, y in ((a, b), (b, a)):
             if isinstance(x, Node):
-                m = self.prog.lookup_method(x.info, "__eq__")
+                m = self._methods(x.info, "__eq__")
                 if m:
                     self.eq_depth += 1
                     if self.eq_depth > 60:
@@ -453,7 +455,7 @@ class Evaluator:
                     if r is NOT_IMPLEMENTED:
                         continue
                     return self.truth(r, "==")
-                if isinstance(y, Node) and self.prog.lookup_method(y.info, "__eq__"):
+                if isinstance(y, Node) and self._methods(y.info, "__eq__"):
                     continue
                 return False            # no __eq__: identity (and a is not b)
         if isinstance(a, OSet) or isinstance(b, OSet):
@@ -532,14 +534,23 @@ class Evaluator:
         raise AnalysisError(f"absint: name `{name}` at {where} is not something the evaluator knows "
                             f"({'external ' + r.dotted if isinstance(r, External) else 'unresolved'})")
 
+    def _methods(self, info: ClassInfo, name: str):
+        k = (info.key, name)
+        if k not in self._mcache:
+            self._mcache[k] = self.prog.lookup_method(info, name)
+        return self._mcache[k]
+
     # -- attributes ---------------------------------------------------------------------------------------------------
     def get_attr(self, obj, attr: str, where: str):
         if isinstance(obj, Node):
             if attr in obj.attrs:
                 return obj.attrs[attr]
-            ms = self.prog.lookup_method(obj.info, attr)
+            ms = self._methods(obj.info, attr)
             if ms:
-                getter = [m for m in ms if "property" in m.decorators]
+                getter = self._getter.get((obj.info.key, attr), False)
+                if getter is False:
+                    g_ = [m for m in ms if "property" in m.decorators]
+                    getter = self._getter[(obj.info.key, attr)] = g_ or None
                 if getter:
                     return self.call_func(FuncVal(getter[0], obj), [], {}, where)
                 m = ms[0]
